@@ -8,7 +8,19 @@ def histories(ctx, cfg, limit):
     hs = sorted({m.group(1).encode().decode("unicode_escape") for m in re.finditer(r'<<"HIST", "(.*)">>', r.out)})
     import random
     random.Random(ctx.seed).shuffle(hs)
-    return [json.loads(h) for h in hs[:limit]]
+    hs = [json.loads(h) for h in hs]
+    # always keep, for every forged class, one history delivering it with and one without an earlier honest delivery
+    must, seen = [], set()
+    for h in sorted(hs, key=lambda x: json.dumps(x)):
+        ds = [s["cls"] for s in h if s["a"] == "deliver"]
+        for j, c in enumerate(ds):
+            if c != "honest":
+                k = (c, "honest" in ds[:j])
+                if k not in seen:
+                    seen.add(k)
+                    must.append(h)
+    rest = [h for h in hs if h not in must]
+    return (must + rest)[:limit]
 
 
 def run(ctx):
@@ -38,7 +50,7 @@ def run(ctx):
             ctx.nontrivial.add(json.dumps(b))
     ctx.sample({"relay history": behs[0]})
     ctx.rule = ("all relay histories of ClientEnv.tla up to the length bound (send side: open / reopen / close / ack / wrong ack, 6 steps; receive side: deliveries of honest, "
-                "bit-flipped, third-key, other-context, other-peer messages, 5 steps), two concurrent Sends and a Recv loop; non-trivial = histories with a re-open or close and an ack / with a forged delivery")
+                "bit-flipped, third-key, third-key-with-attached-public-key, altered-copy-of-the-previous-honest-message, other-context, other-peer messages, 5 steps), two concurrent Sends and a Recv loop; non-trivial = histories with a re-open or close and an ack / with a forged delivery")
     ok, r = ctx.tlc_validate("ClientMon", "ClientMon.cfg", tpath, env={"PROP": prop}, dfs=False, timeout=1800)
     if not ok:
         if r.violated == "NoViolation":
